@@ -30,6 +30,9 @@ def main():
            'escaped': collections.Counter(), 'other_props': collections.Counter(), 'inconclusive': collections.Counter(),
            'samples': [], 'violations': [], 'not_run': 0}
     fps = set()
+    sigs = collections.Counter()
+    known = collections.Counter()
+    from rv.common import match_finding
     idxs = list(range(sl, total, n))
     for k, i in enumerate(idxs):
         if time.time() - t0 > cap:
@@ -55,9 +58,18 @@ def main():
         if 'exhaustive' in r:
             res['exhaustive'] = res.get('exhaustive', True) and r['exhaustive']
         for v in r.get('violations', []):
-            if len(res['violations']) < 20:
+            sig = (v.get('prop'), v.get('kind'), json.dumps(v.get('facts', {}), sort_keys=True, default=str))
+            if match_finding(v.get('prop'), v.get('kind'), v.get('facts')) is not None:
+                # listed finding: keep a couple of instances, never a reason to stop exploring
+                known[sig] += 1
+                if known[sig] <= 2:
+                    res['violations'].append(v)
+                continue
+            sigs[sig] += 1
+            if sigs[sig] <= 3:
                 res['violations'].append(v)
-        if len(res['violations']) >= 20:
+        if len(sigs) >= 12 or (sigs and max(sigs.values()) >= 40 and not r.get('keep_going')):
+            # plenty of witnesses: stop this slice early (counted under not_run)
             res['not_run'] = len(idxs) - k - 1
             break
     res['nontrivial_fps'] = sorted(fps)
